@@ -384,6 +384,7 @@ struct CStats {
     distinct: HashSet<u64>,
     failures: Vec<(String, String)>,
     sample: Vec<serde_json::Value>,
+    samples: Vec<String>,
 }
 
 fn hash_of<T: std::hash::Hash>(t: &T) -> u64 {
@@ -461,6 +462,9 @@ fn check_seq<T: Serialize + DeserializeOwned + Clone + Debug + Unpin>(
                 continue;
             }
             st.decodes += 1;
+            if st.samples.len() < 2 || (st.decodes % 100_003 == 0 && st.samples.len() < 6) {
+                st.samples.push(format!("{label} through {codec:?} ({} bytes on the wire): read in chunks cut at {plan:?}, Pending between chunks: {pend}", reference.len()));
+            }
             let (got, end) = decode::<T>(codec, &reference, plan, pend);
             st.distinct.insert(hash_of(&(label, codec, plan, pend)));
             if got != want {
@@ -834,6 +838,9 @@ pub fn run_c15(tier: Tier) -> i32 {
                 t.chan_histories += st.chan_histories;
                 t.distinct.extend(st.distinct);
                 t.failures.extend(st.failures);
+                if t.samples.len() < 10 {
+                    t.samples.extend(st.samples.iter().take(2).cloned());
+                }
             });
         }
     });
@@ -841,7 +848,7 @@ pub fn run_c15(tier: Tier) -> i32 {
     finish_grid("C15", tier, start, t.encodes + t.decodes + t.chan_histories, t.distinct.len() as u64, &t.failures,
         json!({"encodes": t.encodes, "decodes": t.decodes, "channel_histories": t.chan_histories, "error_kinds_listed": KINDS.len(), "jobs": jobs.len()}),
         "message corpus (all variants; ids {0,1,2^63,u64::MAX}; bodies {empty,'a',unicode,64KiB}; every io::ErrorKind constant listed in the harness; trace contexts zero/max/mixed; both sampling decisions) as sequences of length 1-3, through the real serde_transport with Json and Bincode over an in-memory byte medium: every write policy w in {1,2,3,5,8,13,inf} x {with,without} alternating Pending must produce the same bytes; every cut of the byte stream into <=3 read chunks (all positions for streams <=200 bytes, all positions within +-5 of frame boundaries and the stream ends otherwise) x {with,without} Pending between chunks must read the same items then end-of-stream; every truncation inside a frame must yield the complete frames then an error; every ErrorKind round-trips per the 18-entry table; hand-written JSON frames without optional fields decode to the defaults; in-memory channels: all histories over {send,recv,drop writer} up to the depth for unbounded and bounded(0,1,2). distinct_nontrivial = distinct (sequence, codec, fragmentation plan) cases",
-        vec![json!({"case": "client messages [0] Json cut [3, 9] pending-between-chunks"}), json!({"case": "responses [4] Bincode truncated at byte 7"}), json!({"case": "bounded(1) [Send, Send, Recv, DropWriter, Recv, Recv]"})],
+        t.samples.iter().map(|c| json!({"case": c})).chain([json!({"case": "bounded(1) history [Send, Send, Recv, DropWriter, Recv, Recv] (one of the channel histories, all enumerated)"})]).collect(),
     )
 }
 
